@@ -434,6 +434,7 @@ def make_torch():
     m.ones_like = lambda x, dtype=None, **k: T.full_like(x, 1, dtype)
     m.arange = T.arange
     m.where = T.where
+    m.gather = T.gather
     m.abs = lambda x: abs(x)
     m.sub = lambda a, b: a - b
     m.add = lambda a, b: a + b
